@@ -8,13 +8,13 @@ package apk
 // (aPin / bPin are the pinned names of the indexes they come from).
 func VerifComparePackages(compare *RepositoryPackage, name string, existing map[string]*RepositoryPackage, existingOrigins map[string]bool, pin string, a, b *RepositoryPackage, aPin, bPin string) int {
 	p := &PkgResolver{}
-	return p.comparePackages(compare, name, existing, existingOrigins, pin)(&repositoryPackage{a, aPin}, &repositoryPackage{b, bPin})
+	return p.comparePackages(compare, name, existing, existingOrigins, pin)(&repositoryPackage{RepositoryPackage: a, pinnedName: aPin}, &repositoryPackage{RepositoryPackage: b, pinnedName: bPin})
 }
 
 // VerifGetDepVersionForName calls PkgResolver.getDepVersionForName.
 func VerifGetDepVersionForName(pkg *RepositoryPackage, name string) string {
 	p := &PkgResolver{}
-	return p.getDepVersionForName(&repositoryPackage{pkg, ""}, name)
+	return p.getDepVersionForName(&repositoryPackage{RepositoryPackage: pkg, pinnedName: ""}, name)
 }
 
 // VerifConflictingVersion calls PkgResolver.conflictingVersion; panicked reports its panic.
@@ -25,7 +25,7 @@ func VerifConflictingVersion(constraint string, conflict *RepositoryPackage) (re
 		}
 	}()
 	p := &PkgResolver{}
-	return p.conflictingVersion(cachedResolvePackageNameVersionPin(constraint), &repositoryPackage{conflict, ""}), false
+	return p.conflictingVersion(cachedResolvePackageNameVersionPin(constraint), &repositoryPackage{RepositoryPackage: conflict, pinnedName: ""}), false
 }
 
 // VerifSatisfies calls versionDependency.satisfies.
@@ -39,7 +39,7 @@ func VerifFilterPackages(pkgs []*RepositoryPackage, pins []string, dq []int, all
 	cands := make([]*repositoryPackage, len(pkgs))
 	at := map[*repositoryPackage]int{}
 	for i, p := range pkgs {
-		cands[i] = &repositoryPackage{p, pins[i]}
+		cands[i] = &repositoryPackage{RepositoryPackage: p, pinnedName: pins[i]}
 		at[cands[i]] = i
 	}
 	dqm := map[*RepositoryPackage]string{}
